@@ -126,4 +126,101 @@ def Route.guardedOk (r : Route) : Bool :=
   | .unitsWithRecent | .unitsOnline | .runs => r.guard = .filter
   | .none => true
 
+/-! ## Histories: how the aggregator's picture of a unit's required roles comes about
+
+`AggregatorMessageHandlers` / `FromEngine`: `handle_RegisterEngineMsg` + `handle_UodInfoMsg` (one `connect`
+event: the engine sends its UodInfo right after registering), a later `UodInfoMsg`, `RunStartedMsg`,
+`RunStoppedMsg` (`run_started`, `run_stopped`, `EngineData.reset_run`, `store_recent_run`) and
+`handle_EngineDisconnected` (`store_recent_engine`, removal from the engine map). Required roles are a
+property of the unit that only a UodInfo sets; run events copy them into the stored recent run, a
+disconnect copies them into the recent-engine row. -/
+
+structure UnitSt where
+  id : String
+  roles : List String
+  run : Option String          -- run id of the active run
+deriving DecidableEq, Repr
+
+structure RecentRow where
+  id : String
+  roles : List String
+  run : Option String          -- the run that was active when the engine disconnected
+deriving DecidableEq, Repr
+
+structure AState where
+  online : List UnitSt         -- `_engine_data_map`, insertion order
+  recent : List RecentRow      -- table RecentEngines
+  runs : List Res              -- table RecentRuns
+deriving Repr
+
+def AState.init : AState := ⟨[], [], []⟩
+
+inductive Event where
+  | connect (u : String) (roles : List String)    -- RegisterEngineMsg, then UodInfoMsg(required_roles)
+  | uodInfo (u : String) (roles : List String)
+  | runStarted (u : String) (run : String)
+  | runStopped (u : String) (run : String)
+  | disconnect (u : String)
+deriving DecidableEq, Repr
+
+def findU (l : List UnitSt) (u : String) : Option UnitSt := l.find? (fun x => x.id = u)
+
+def setRoles (u : String) (roles : List String) (l : List UnitSt) : List UnitSt :=
+  l.map (fun x => if x.id = u then { x with roles := roles } else x)
+
+def setRun (u : String) (run : Option String) (l : List UnitSt) : List UnitSt :=
+  l.map (fun x => if x.id = u then { x with run := run } else x)
+
+def upsertRecent (row : RecentRow) (l : List RecentRow) : List RecentRow :=
+  if l.any (fun x => x.id = row.id) then l.map (fun x => if x.id = row.id then row else x) else l ++ [row]
+
+def step (s : AState) : Event → AState
+  | .connect u roles =>
+    match findU s.online u with
+    | some _ => { s with online := setRoles u roles s.online }   -- still registered: only the UodInfo acts
+    | none =>
+      let restored := match s.recent.find? (fun r => r.id = u) with
+        | some row => row.run
+        | none => none
+      { s with online := s.online ++ [⟨u, roles, restored⟩] }
+  | .uodInfo u roles => { s with online := setRoles u roles s.online }
+  | .runStarted u r =>
+    match findU s.online u with
+    | none => s
+    | some x =>
+      match x.run with
+      | none => { s with online := setRun u (some r) s.online }
+      | some cur =>
+        if cur = r then s
+        else { s with runs := s.runs ++ [⟨cur, x.roles⟩], online := setRun u (some r) s.online }
+  | .runStopped u _ =>
+    match findU s.online u with
+    | none => s
+    | some x =>
+      match x.run with
+      | none => s
+      | some cur => { s with runs := s.runs ++ [⟨cur, x.roles⟩], online := setRun u none s.online }
+  | .disconnect u =>
+    match findU s.online u with
+    | none => s
+    | some x => { s with recent := upsertRecent ⟨u, x.roles, x.run⟩ s.recent,
+                         online := s.online.filter (fun y => y.id ≠ u) }
+
+def runHistory (h : List Event) : AState := h.foldl step AState.init
+
+/-- what the routers see -/
+def worldOf (s : AState) : World :=
+  ⟨s.online.map (fun x => ⟨x.id, x.roles⟩), s.recent.map (fun x => ⟨x.id, x.roles⟩), s.runs⟩
+
+/-- Specification of a unit's required roles: what its last UodInfo said, while it is connected. Run events
+do not appear in it. -/
+def specStep (m : String → Option (List String)) : Event → String → Option (List String)
+  | .connect u roles => fun v => if v = u then some roles else m v
+  | .uodInfo u roles => fun v => if v = u then (if (m u).isSome then some roles else none) else m v
+  | .disconnect u => fun v => if v = u then none else m v
+  | .runStarted _ _ => m
+  | .runStopped _ _ => m
+
+def specRoles (h : List Event) : String → Option (List String) := h.foldl specStep (fun _ => none)
+
 end OPM.Access
